@@ -9,7 +9,7 @@
    correspondence check. *)
 From Coq Require Import ZArith QArith.
 From FCA Require Import Base.ListSet Model.C19_LineLayout Model.C19_Mover Spec.C19_LayoutSpec
-                        Lemmas.C19_Mover Lemmas.C19_Levels Lemmas.C19_Fcart Lemmas.C19_Shift Lemmas.C19_HeightSpec.
+                        Lemmas.C19_Mover Lemmas.C19_Levels Lemmas.C19_Fcart Lemmas.C19_Shift Lemmas.C19_HeightSpec Lemmas.C19_Sorted.
 Local Open Scope nat_scope.
 
 Section Posets.
@@ -19,7 +19,6 @@ Variable parents children : nat -> list nat.
 Variable tops : list nat.
 
 Definition poset_answers : Prop :=
-  0 < n /\
   (forall a b, a < n -> b < n -> leq a b = true -> leq b a = true -> a = b) /\
   (forall a b c, a < n -> b < n -> c < n -> leq a b = true -> leq b c = true -> leq a c = true) /\
   (forall v p, v < n -> (In p (parents v) <-> p < n /\ covers_of n leq v p = true)) /\
@@ -29,7 +28,7 @@ Definition poset_answers : Prop :=
   NoDup tops.
 End Posets.
 
-(* calc_levels terminates normally, every element gets a level, and the level is the length of
+(* calc_levels terminates normally (also on the empty poset), every element gets a level, and the level is the length of
    the longest chain from a maximal element down to it *)
 Theorem C19_levels_longest_chain : forall n leq parents children tops,
   poset_answers n leq parents children tops ->
@@ -37,19 +36,13 @@ Theorem C19_levels_longest_chain : forall n leq parents children tops,
     calc_levels n parents children tops = LOk (levels, ld) /\ length levels = n /\
     forall v, v < n -> exists k, lev levels v = Z.of_nat k /\ is_height n leq v k.
 Proof.
-  intros n leq parents children tops (H0 & H1 & H2 & H3 & H4 & H5 & H6 & H7).
-  exact (levels_longest_chain n leq parents children tops H1 H2 H3 H4 H5 H6 H7 H0).
+  intros n leq parents children tops (H1 & H2 & H3 & H4 & H5 & H6 & H7).
+  exact (levels_longest_chain n leq parents children tops H1 H2 H3 H4 H5 H6 H7).
 Qed.
 Print Assumptions C19_levels_longest_chain.
 
 (* the executable oracle of the correspondence check (exhaustive search for the longest climbing
    chain) is that length, so the model's levels are the oracle's *)
-Theorem C19_oracle_is_height : forall n leq i,
-  (forall a b, a < n -> b < n -> leq a b = true -> leq b a = true -> a = b) ->
-  (forall a b c, a < n -> b < n -> c < n -> leq a b = true -> leq b c = true -> leq a c = true) ->
-  i < n -> is_height n leq i (height n leq i).
-Proof. intros n leq i H1 H2 Hi. exact (height_is_height n leq H1 H2 i Hi). Qed.
-Print Assumptions C19_oracle_is_height.
 
 Theorem C19_levels_equal_oracle : forall n leq parents children tops,
   poset_answers n leq parents children tops ->
@@ -61,23 +54,23 @@ Proof.
   destruct (C19_levels_longest_chain n leq parents children tops PA) as (levels & ld & E & Len & H).
   exists levels, ld. split; [exact E|]. split; [exact Len|]. intros v Hv.
   destruct (H v Hv) as (k & Ek & Hk). rewrite Ek. f_equal.
-  destruct PA as (_ & H1 & H2 & _).
+  destruct PA as (H1 & H2 & _).
   exact (is_height_unique n leq v k (height n leq v) Hk (height_is_height n leq H1 H2 v Hv)).
 Qed.
 Print Assumptions C19_levels_equal_oracle.
 
-(* Recorded finding (guard: 0 < n, part of [poset_answers]): on the EMPTY poset calc_levels - and
-   with it both layouts - raises ValueError (max() of an empty list) instead of returning the
-   empty layout; the faithful model reproduces it. *)
-Theorem C19_empty_poset_refuted :
-  exists n parents children tops,
-    ~ (exists levels ld, calc_levels n parents children tops = LOk (levels, ld)) /\
-    calc_levels n parents children tops = LErr 2.
+(* the empty poset (repaired in /repo by 1521664: max(levels, default=-1)): no levels, no level
+   rows, the empty layout *)
+Theorem C19_empty_poset : forall parents children tops c dpth,
+  calc_levels 0 parents children [] = LOk ([], []) /\
+  fcart_layout 0 parents children [] c dpth = LOk [] /\
+  (poset_answers 0 (fun _ _ => true) parents children tops -> tops = []).
 Proof.
-  exists 0, (fun _ => []), (fun _ => []), []. split; [|reflexivity].
-  intros (l & ld & H). vm_compute in H. discriminate.
+  intros parents children tops c dpth. split; [reflexivity|]. split; [reflexivity|].
+  intros (_ & _ & _ & _ & _ & H & _). destruct tops as [|t ts]; [reflexivity|].
+  exfalso. destruct (proj1 (H t) (or_introl eq_refl)) as [L _]. lia.
 Qed.
-Print Assumptions C19_empty_poset_refuted.
+Print Assumptions C19_empty_poset.
 
 (* fcart_layout(c, dpth): a position for every element, no position used twice *)
 Theorem C19_fcart_total_distinct : forall n leq parents children tops c dpth,
@@ -86,8 +79,8 @@ Theorem C19_fcart_total_distinct : forall n leq parents children tops c dpth,
     forall i j, i < n -> j < n -> i <> j ->
       ~ ((fst (nth i ps (0, 0)) == fst (nth j ps (0, 0))) /\ (snd (nth i ps (0, 0)) == snd (nth j ps (0, 0))))%Q.
 Proof.
-  intros n leq parents children tops c dpth (H0 & H1 & H2 & H3 & H4 & H5 & H6 & H7).
-  exact (fcart_total_distinct n leq parents children tops c dpth H1 H2 H3 H4 H5 H6 H7 H0).
+  intros n leq parents children tops c dpth (H1 & H2 & H3 & H4 & H5 & H6 & H7).
+  exact (fcart_total_distinct n leq parents children tops c dpth H1 H2 H3 H4 H5 H6 H7).
 Qed.
 Print Assumptions C19_fcart_total_distinct.
 
@@ -98,20 +91,19 @@ Theorem C19_fcart_order : forall n leq parents children tops c dpth,
     forall i j, i < n -> j < n -> slt leq j i = true ->
       (snd (nth j ps (0, 0)) < snd (nth i ps (0, 0)))%Q.
 Proof.
-  intros n leq parents children tops c dpth (H0 & H1 & H2 & H3 & H4 & H5 & H6 & H7).
-  exact (fcart_order n leq parents children tops c dpth H1 H2 H3 H4 H5 H6 H7 H0).
+  intros n leq parents children tops c dpth (H1 & H2 & H3 & H4 & H5 & H6 & H7).
+  exact (fcart_order n leq parents children tops c dpth H1 H2 H3 H4 H5 H6 H7).
 Qed.
 Print Assumptions C19_fcart_order.
 
 (* the covers computed from the comparison in index order are one such enumeration *)
 Theorem C19_instance : forall n leq,
-  0 < n ->
   (forall a b, a < n -> b < n -> leq a b = true -> leq b a = true -> a = b) ->
   (forall a b c, a < n -> b < n -> c < n -> leq a b = true -> leq b c = true -> leq a c = true) ->
   poset_answers n leq (parents_of n leq) (children_of n leq) (tops_of n leq).
 Proof.
-  intros n leq H0 H1 H2. unfold poset_answers.
-  split; [exact H0|]. split; [exact H1|]. split; [exact H2|].
+  intros n leq H1 H2. unfold poset_answers.
+  split; [exact H1|]. split; [exact H2|].
   split; [intros v p Hv; apply parents_of_spec; exact Hv|].
   split; [intros v x Hv; apply children_of_spec; exact Hv|].
   split; [apply children_of_nodup|]. split; [apply tops_of_spec | apply tops_of_nodup].
@@ -126,11 +118,6 @@ Theorem C19_mover_roundtrip : forall v p,
 Proof. exact load_roundtrip. Qed.
 Print Assumptions C19_mover_roundtrip.
 
-(* every state reached from a loaded picture by ANY history of operations is well formed
-   (every node has a level row and a slot inside it) *)
-Theorem C19_reachable_wf : forall v p ops, wf_state (run (load v p) ops).
-Proof. intros v p ops. apply run_wf. apply load_wf. Qed.
-Print Assumptions C19_reachable_wf.
 
 (* levels_untouched: over ALL histories of swap / shift / jitter / place / direction changes, from
    ANY state, no node's level and no level coordinate ever changes *)
@@ -144,10 +131,6 @@ Qed.
 Print Assumptions C19_levels_untouched.
 
 (* ... and a node is only ever moved by operations on nodes of its own level *)
-Theorem C19_other_levels_step : forall s o i el,
-  op_node o = Some i -> level_of s el <> level_of s i -> pos_of (fst (step s o)) el = pos_of s el.
-Proof. exact step_other_levels. Qed.
-Print Assumptions C19_other_levels_step.
 
 Theorem C19_other_levels_history : forall ops s el,
   (forall o, In o ops -> exists i, op_node o = Some i /\ level_of s i <> level_of s el) ->
@@ -158,18 +141,16 @@ Print Assumptions C19_other_levels_history.
 (* swap_exact: on one level exactly the two positions are exchanged; across levels the
    operation is rejected and nothing changes *)
 Theorem C19_swap_exact : forall s a b,
-  a < length (m_order s) -> b < length (m_order s) -> level_of s a = level_of s b ->
-  snd (swap_nodes s a b) = 0 /\
-  pos_of (fst (swap_nodes s a b)) a = pos_of s b /\
-  pos_of (fst (swap_nodes s a b)) b = pos_of s a /\
-  forall el, el <> a -> el <> b -> pos_of (fst (swap_nodes s a b)) el = pos_of s el.
-Proof. exact swap_exact. Qed.
+  a < length (m_order s) -> b < length (m_order s) ->
+  (level_of s a = level_of s b ->
+     snd (swap_nodes s a b) = 0 /\
+     pos_of (fst (swap_nodes s a b)) a = pos_of s b /\
+     pos_of (fst (swap_nodes s a b)) b = pos_of s a /\
+     forall el, el <> a -> el <> b -> pos_of (fst (swap_nodes s a b)) el = pos_of s el) /\
+  (level_of s a <> level_of s b -> swap_nodes s a b = (s, 2)).
+Proof. intros s a b Ha Hb. split; [exact (swap_exact s a b Ha Hb) | exact (swap_rejected s a b)]. Qed.
 Print Assumptions C19_swap_exact.
 
-Theorem C19_swap_rejected : forall s a b,
-  level_of s a <> level_of s b -> swap_nodes s a b = (s, 2).
-Proof. exact swap_rejected. Qed.
-Print Assumptions C19_swap_rejected.
 
 (* jitter_offset: unless the overlap assertion fires, the peer coordinate of the node becomes
    exactly old + dx (all three branches: border, order preserving, crossing) *)
@@ -214,18 +195,50 @@ Theorem C19_shift_exact : forall s i k,
 Proof. exact shift_exact. Qed.
 Print Assumptions C19_shift_exact.
 
-(* the mechanism behind it: the swaps of the loop rotate the slots along the peers walked over *)
-Theorem C19_shift_rotation : forall js s i,
-  NoDup js -> ~ In i js -> i < length (m_order s) ->
-  (forall j, In j js -> j < length (m_order s) /\ level_of s j = level_of s i) ->
-  let r := swap_all s i js in
-  snd r = 0 /\ m_ppeers (fst r) = m_ppeers s /\ m_v (fst r) = m_v s /\
-  slot_of (fst r) i = slot_of s (last js i) /\
-  (forall u, u < length js ->
-     slot_of (fst r) (nth u js 0) = slot_of s (match u with O => i | S u' => nth u' js 0 end)) /\
-  (forall el, el <> i -> ~ In el js -> slot_of (fst r) el = slot_of s el).
-Proof. exact swap_all_rot. Qed.
-Print Assumptions C19_shift_rotation.
+(* From a picture with pairwise different points, operations on in-range nodes only reach states in
+   which the coordinates of every level are strictly increasing in slot order: so slot order IS
+   the left-to-right order drawn, two nodes never come to share a point, and shift_exact /
+   jitter_offset speak about places among the peers as drawn. *)
+Theorem C19_reachable_sorted : forall v p ops,
+  distinct_pts p -> Forall (op_in_range (length p)) ops -> rows_sorted (run (load v p) ops).
+Proof. exact reachable_rows_sorted. Qed.
+Print Assumptions C19_reachable_sorted.
+
+Theorem C19_slot_order_is_coord_order : forall s a b,
+  slots_ok s -> rows_sorted s ->
+  a < length (m_levels s) -> b < length (m_levels s) -> level_of s a = level_of s b ->
+  (slot_of s a < slot_of s b <-> (peer_coord s a < peer_coord s b)%Q) /\
+  (a <> b -> ~ (peer_coord s a == peer_coord s b)%Q).
+Proof.
+  intros s a b OK RS Ha Hb L. split; [exact (slot_order_is_coord_order s a b OK RS Ha Hb L)|].
+  intro N. exact (reachable_distinct s a b OK RS Ha Hb N L).
+Qed.
+Print Assumptions C19_slot_order_is_coord_order.
+
+
+(* shift in coordinates: the node lands on the pid'-th coordinate of the (unchanged) row of its
+   level, every peer passed takes the neighbouring coordinate *)
+Theorem C19_shift_exact_coords : forall s i k,
+  slots_ok s -> i < length (m_levels s) ->
+  let row := nth (level_of s i) (m_ppeers s) [] in
+  let pid := slot_of s i in
+  let r := if Z.leb 0 k then Nat.min (Z.abs_nat k) (length row - S pid) else Nat.min (Z.abs_nat k) pid in
+  let pid' := if Z.leb 0 k then pid + r else pid - r in
+  let s' := fst (shift_node s i k) in
+  peer_coord s i = nth pid row 0%Q /\ peer_coord s' i = nth pid' row 0%Q /\
+  forall el, el <> i -> el < length (m_levels s) -> level_of s el = level_of s i ->
+    peer_coord s' el =
+      nth (if Z.leb 0 k
+           then if Nat.ltb pid (slot_of s el) && Nat.leb (slot_of s el) pid' then slot_of s el - 1 else slot_of s el
+           else if Nat.leb pid' (slot_of s el) && Nat.ltb (slot_of s el) pid then slot_of s el + 1 else slot_of s el)
+          row 0%Q.
+Proof. exact shift_exact_coords. Qed.
+Print Assumptions C19_shift_exact_coords.
+
+(* (the mechanism behind it - the swaps of the loop rotate the slots along the peers walked over -
+   is Lemmas/C19_Mover.v swap_all_rot; that [height] satisfies [is_height] is
+   Lemmas/C19_HeightSpec.v height_is_height; the one-step version of "other levels" is
+   Lemmas/C19_Mover.v step_other_levels; well-formedness of reachable states is part of slots_ok) *)
 
 (* ---- non-vacuity *)
 (* the 5-element poset  4 < 1 < 0,  4 < 2 < 0,  3 < 2  (a long and a short way up, indices not in
@@ -247,10 +260,7 @@ Example C19_nonvacuous_layout :
                       with LOk ps => ps | LErr _ => [] end) = true.
 Proof.
   split; [|split; [|split]].
-  - apply C19_instance; [lia | |].
-    + intros a b Ha Hb. do 5 (destruct a as [|a]; [do 5 (destruct b as [|b]; [vm_compute; intros; congruence|]); lia|]). lia.
-    + intros a b c Ha Hb Hc.
-      do 5 (destruct a as [|a]; [do 5 (destruct b as [|b]; [do 5 (destruct c as [|c]; [vm_compute; intros; congruence|]); lia|]); lia|]). lia.
+  - assert (PO := po_ok_spec 5 ex_leq eq_refl). destruct PO as [A T]. apply C19_instance; assumption.
   - eexists. vm_compute. reflexivity.
   - vm_compute. reflexivity.
   - vm_compute. reflexivity.
